@@ -77,6 +77,7 @@ fn family(name: &str) -> Option<(Runner, Driver)> {
         "validate" => (fam_validate::run, fam_validate::drive),
         "partial" => (fam_partial::run, fam_partial::drive),
         "tpe" => (fam_tpe::run, fam_tpe::drive),
+        "query" => (fam_tpe::run_query, fam_tpe::drive),
         "batched" => (fam_batched::run, fam_batched::drive),
         "slice" => (fam_slice::run, fam_slice::drive),
         "syntax" => (fam_syntax::run, fam_syntax::drive),
